@@ -1,12 +1,1219 @@
-//! stub: property C10 has no correspondence harness yet
+//! C10 — path patterns match exactly their language; partial percent-decoding.
+//! Public `actix_router` API only (`Quoter`, `ResourceDef`, `Path`).
+//!
+//! Case lines (first word selects the sub-model; strings are lower-case hex of their UTF-8
+//! bytes, `-` = empty):
+//!   q <protected> <in1> <in2> …      Quoter::new(b"", protected).requote(in_k) for every k
+//!   m <F|P> <pats> <path>…           ResourceDef::new / ::prefix; per path is_match/find_match/capture_match_info
+//!   b <F|P> <pats> <val>…            resource_path_from_iter, then capture_match_info on the built path
+//!   k <path> <F|P>:<pat>…            successive capture_match_info calls on one Path
+//!     <pats> = `S <pat>` (Patterns::Single) | `L<n> <pat>×n` (Patterns::List)
+use std::panic::{catch_unwind, AssertUnwindSafe};
+
+use actix_router::{Path, Patterns, Quoter, ResourceDef};
+
 use super::Prop;
-use crate::common::CaseResult;
+use crate::common::{hex, unhex, CaseResult, Ctx, Rng};
+
+const RULE: &str = "q-cases: Quoter::requote on all 1- and 2-byte strings, all 3-byte strings starting with '%', \
+all strings over {%,2,F,5,/,a,x} up to length 6 (batched 64 inputs per line) for the protected sets {}, {%/+}, {/}, {+}, \
+plus seeded random byte strings (escape-dense) up to 2000 bytes and random protected sets (incl. non-ASCII => panic); \
+a q-case is non-trivial if at least one input was changed by decoding; distinct = distinct (case, output) hashes";
+
+// ---------------------------------------------------------------- Quoter
+
+/// independent reference: tokenise left to right into `%HH` escapes and plain bytes
+fn ref_decode(prot: &[u8], s: &[u8]) -> (Vec<u8>, usize) {
+    let hexv = |b: u8| -> Option<u8> {
+        match b {
+            b'0'..=b'9' => Some(b - b'0'),
+            b'a'..=b'f' => Some(b - b'a' + 10),
+            b'A'..=b'F' => Some(b - b'A' + 10),
+            _ => None,
+        }
+    };
+    let mut out = Vec::new();
+    let mut decoded = 0usize;
+    let mut i = 0;
+    while i < s.len() {
+        if s[i] == b'%' && i + 2 < s.len() {
+            if let (Some(h), Some(l)) = (hexv(s[i + 1]), hexv(s[i + 2])) {
+                let v = h * 16 + l;
+                if !prot.contains(&v) {
+                    out.push(v);
+                    decoded += 1;
+                    i += 3;
+                    continue;
+                }
+            }
+        }
+        out.push(s[i]);
+        i += 1;
+    }
+    (out, decoded)
+}
+
+fn run_q(words: &[&str]) -> CaseResult {
+    let prot = match unhex(words[1]) {
+        Some(p) => p,
+        None => return CaseResult::ok("bad-case".into()),
+    };
+    let q = match std::panic::catch_unwind(|| Quoter::new(b"", &prot)) {
+        Ok(q) => q,
+        Err(_) => {
+            // documented: "Panics if any of the protected bytes are not in the 0-127 ASCII range"
+            let mut r = CaseResult::ok("panic-new".into()).tag("q-panic-new");
+            r.nontrivial = false;
+            if prot.iter().all(|b| *b < 128) {
+                r = r.fail("quoter-new-panic", format!("Quoter::new panicked on ASCII protected set {}", hex(&prot)));
+            }
+            return r;
+        }
+    };
+    if prot.iter().any(|b| *b >= 128) {
+        return CaseResult::ok("no-panic".into())
+            .fail("quoter-new-no-panic", format!("Quoter::new accepted non-ASCII protected set {}", hex(&prot)));
+    }
+    let mut outs = Vec::new();
+    let mut res = CaseResult::ok(String::new()).tag("q");
+    let mut changed = 0usize;
+    for w in &words[2..] {
+        let Some(input) = unhex(w) else {
+            outs.push("bad-case".to_owned());
+            continue;
+        };
+        let got = q.requote(&input);
+        let (want, n) = ref_decode(&prot, &input);
+        // property text: "decodes every non-protected valid escape and nothing else"
+        match &got {
+            None => {
+                if n != 0 {
+                    res = res.fail("requote-missed", format!("in={} returned None, reference decodes {} escapes", w, n));
+                }
+            }
+            Some(out) => {
+                changed += 1;
+                if n == 0 {
+                    res = res.fail("requote-spurious", format!("in={} returned Some({}) but nothing is decodable", w, hex(out)));
+                } else if *out != want {
+                    res = res.fail("requote-value", format!("in={} got {} want {}", w, hex(out), hex(&want)));
+                }
+                // metamorphic: a protected, non-hex, non-% separator splits input and output alike
+                for &sep in prot.iter().filter(|b| **b != b'%' && !b.is_ascii_hexdigit()) {
+                    let a: Vec<Vec<u8>> = out.split(|b| *b == sep).map(|s| s.to_vec()).collect();
+                    let b: Vec<Vec<u8>> = input
+                        .split(|b| *b == sep)
+                        .map(|s| q.requote(s).unwrap_or_else(|| s.to_vec()))
+                        .collect();
+                    if a != b {
+                        res = res.fail("requote-separator", format!("in={} sep={:02x}: segments differ", w, sep));
+                    }
+                }
+            }
+        }
+        outs.push(match got {
+            None => "none".to_owned(),
+            Some(o) => format!("some:{}", hex(&o)),
+        });
+    }
+    if changed > 0 {
+        res = res.tag("q-changed");
+    }
+    res.nontrivial = changed > 0;
+    res.output = outs.join(" ");
+    res
+}
+
+fn gen_q(ctx: &Ctx, rng: &mut Rng, cases: &mut Vec<String>) {
+    let prots: [&[u8]; 4] = [b"", b"%/+", b"/", b"+"];
+    let mut inputs: Vec<Vec<u8>> = Vec::new();
+    for a in 0..=255u8 {
+        inputs.push(vec![a]);
+    }
+    for a in 0..=255u8 {
+        for b in 0..=255u8 {
+            inputs.push(vec![a, b]);
+            inputs.push(vec![b'%', a, b]);
+        }
+    }
+    const AL: &[u8] = b"%2F5/ax";
+    for len in 3..=6usize {
+        let mut idx = vec![0usize; len];
+        'outer: loop {
+            inputs.push(idx.iter().map(|&i| AL[i]).collect());
+            let mut k = len;
+            loop {
+                if k == 0 {
+                    break 'outer;
+                }
+                k -= 1;
+                idx[k] += 1;
+                if idx[k] < AL.len() {
+                    break;
+                }
+                idx[k] = 0;
+            }
+        }
+    }
+    // the exhaustive set is run with the default protected set; a quarter of it with each other set
+    for (pi, prot) in prots.iter().enumerate() {
+        for (ci, chunk) in inputs.chunks(64).enumerate() {
+            if pi != 1 && (ci + pi) % 4 != 0 {
+                continue;
+            }
+            let mut s = format!("q {}", hex(prot));
+            for i in chunk {
+                s.push(' ');
+                s.push_str(&hex(i));
+            }
+            cases.push(s);
+        }
+    }
+    // random, escape-dense
+    const DENSE: &[u8] = b"%%%%0123456789abcdefABCDEF/+ gx\x80\xff";
+    for _ in 0..ctx.budget(600) {
+        let prot: Vec<u8> = if rng.chance(1, 12) {
+            let n = rng.range(1, 4);
+            rng.bytes(n)
+        } else if rng.chance(1, 2) {
+            b"%/+".to_vec()
+        } else {
+            let n = rng.below(5);
+            (0..n).map(|_| (rng.next() % 128) as u8).collect()
+        };
+        let mut s = format!("q {}", hex(&prot));
+        let k = rng.range(1, 8);
+        for _ in 0..k {
+            let n = if rng.chance(1, 10) { rng.range(100, 2000) } else { rng.range(0, 40) };
+            let v: Vec<u8> = (0..n)
+                .map(|_| if rng.chance(1, 6) { rng.next() as u8 } else { *rng.pick(DENSE) })
+                .collect();
+            s.push(' ');
+            s.push_str(&hex(&v));
+        }
+        cases.push(s);
+    }
+}
+
+// ---------------------------------------------------------------- patterns: real code
+
+fn hs(x: &str) -> String {
+    hex(x.as_bytes())
+}
+
+fn unhex_str(w: &str) -> Option<String> {
+    String::from_utf8(unhex(w)?).ok()
+}
+
+/// `S <pat>` | `L<n> <pat>×n` → (patterns, is_single, rest)
+fn take_patterns<'a>(ws: &'a [&'a str]) -> Option<(Vec<String>, bool, &'a [&'a str])> {
+    match ws.first().copied()? {
+        "S" => Some((vec![unhex_str(ws.get(1)?)?], true, &ws[2..])),
+        spec if spec.starts_with('L') => {
+            let n: usize = spec[1..].parse().ok()?;
+            if ws.len() < 1 + n {
+                return None;
+            }
+            let ps: Option<Vec<String>> = ws[1..1 + n].iter().map(|w| unhex_str(w)).collect();
+            Some((ps?, false, &ws[1 + n..]))
+        }
+        _ => None,
+    }
+}
+
+fn mk_def(prefix: bool, pats: &[String], single: bool) -> Option<ResourceDef> {
+    let pats = pats.to_vec();
+    catch_unwind(AssertUnwindSafe(move || {
+        if single {
+            if prefix {
+                ResourceDef::prefix(pats[0].as_str())
+            } else {
+                ResourceDef::new(pats[0].as_str())
+            }
+        } else if prefix {
+            ResourceDef::prefix(Patterns::List(pats))
+        } else {
+            ResourceDef::new(Patterns::List(pats))
+        }
+    }))
+    .ok()
+}
+
+/// observable state of a `Path` after a successful capture: skip and (name, start, end, value)
+struct Seen {
+    skip: usize,
+    segs: Vec<(String, Option<(usize, usize, String)>)>,
+}
+
+fn observe(p: &Path<&str>) -> Seen {
+    let full = p.as_str();
+    let skip = full.len() - p.unprocessed().len();
+    let base = full.as_ptr() as usize;
+    // `iter()` slices the path; bad offsets make it panic, then every value is unreadable
+    let all = catch_unwind(AssertUnwindSafe(|| {
+        p.iter()
+            .map(|(k, v)| {
+                let st = v.as_ptr() as usize - base;
+                (k.to_owned(), Some((st, st + v.len(), v.to_owned())))
+            })
+            .collect::<Vec<_>>()
+    }));
+    let segs = match all {
+        Ok(v) => v,
+        Err(_) => (0..p.segment_count()).map(|i| (format!("?{i}"), None)).collect(),
+    };
+    Seen { skip, segs }
+}
+
+fn show_seen(s: &Seen) -> String {
+    let parts: Vec<String> = s
+        .segs
+        .iter()
+        .map(|(n, v)| match v {
+            Some((st, en, val)) => format!("{}={}-{}:{}", n, st, en, hs(val)),
+            None => format!("{}=!", n),
+        })
+        .collect();
+    format!("{}{{{}}}", s.skip, parts.join(","))
+}
+
+// ---------------------------------------------------------------- patterns: independent reference
+// The property's own words: static text matches itself, a dynamic segment matches a non-empty run
+// without '/', a custom regex / tail segment matches its language, prefixes stop only at a segment
+// boundary.  Evaluated by set-of-positions reachability (no backtracking, no priorities).
+
+#[derive(Clone, Debug)]
+enum RAtom {
+    Lit(char),
+    Cls(bool, Vec<(char, char)>),
+    Any,
+}
+
+impl RAtom {
+    fn ok(&self, c: char) -> bool {
+        match self {
+            RAtom::Lit(x) => *x == c,
+            RAtom::Cls(neg, rs) => *neg != rs.iter().any(|(lo, hi)| *lo <= c && c <= *hi),
+            RAtom::Any => true,
+        }
+    }
+}
+
+#[derive(Clone, Debug)]
+struct RPiece {
+    a: RAtom,
+    min: usize,
+    max: Option<usize>,
+}
+
+#[derive(Clone, Debug)]
+enum RSeg {
+    Const(Vec<char>),
+    Var(String, Vec<RPiece>),
+}
+
+#[derive(Clone, Debug)]
+struct RPat {
+    segs: Vec<RSeg>,
+    tail: bool,
+}
+
+fn ref_class(cs: &[char], mut i: usize) -> Option<(RAtom, usize)> {
+    // cs[i] is the char after '['
+    let neg = cs.get(i) == Some(&'^');
+    if neg {
+        i += 1;
+    }
+    let mut rs = Vec::new();
+    loop {
+        let c = *cs.get(i)?;
+        if c == ']' {
+            if rs.is_empty() {
+                return None;
+            }
+            return Some((RAtom::Cls(neg, rs), i + 1));
+        }
+        if c == '\\' {
+            match *cs.get(i + 1)? {
+                'd' => rs.push(('0', '9')),
+                e if e.is_ascii_punctuation() && e != '<' && e != '>' => rs.push((e, e)),
+                _ => return None,
+            }
+            i += 2;
+            continue;
+        }
+        if "[&~-^".contains(c) {
+            return None;
+        }
+        if cs.get(i + 1) == Some(&'-') && cs.get(i + 2).map_or(false, |h| !"]\\[".contains(*h)) {
+            let hi = cs[i + 2];
+            if c > hi {
+                return None;
+            }
+            rs.push((c, hi));
+            i += 3;
+        } else if cs.get(i + 1) == Some(&'-') {
+            return None;
+        } else {
+            rs.push((c, c));
+            i += 1;
+        }
+    }
+}
+
+fn ref_regex(re: &str) -> Option<Vec<RPiece>> {
+    let cs: Vec<char> = re.chars().collect();
+    let mut i = 0;
+    let mut out = Vec::new();
+    while i < cs.len() {
+        let (a, mut j) = match cs[i] {
+            '.' => (RAtom::Any, i + 1),
+            '\\' => match *cs.get(i + 1)? {
+                'd' => (RAtom::Cls(false, vec![('0', '9')]), i + 2),
+                e if e.is_ascii_punctuation() && e != '<' && e != '>' => (RAtom::Lit(e), i + 2),
+                _ => return None,
+            },
+            '[' => ref_class(&cs, i + 1)?,
+            c if "\\.+*?()|[]{}^$".contains(c) => return None,
+            c => (RAtom::Lit(c), i + 1),
+        };
+        let (min, max) = match cs.get(j) {
+            Some('+') => {
+                j += 1;
+                (1, None)
+            }
+            Some('*') => {
+                j += 1;
+                (0, None)
+            }
+            Some('?') => {
+                j += 1;
+                (0, Some(1))
+            }
+            Some('{') => {
+                let close = j + cs[j..].iter().position(|c| *c == '}')?;
+                let body: String = cs[j + 1..close].iter().collect();
+                j = close + 1;
+                let num = |s: &str| -> Option<usize> {
+                    if s.is_empty() || !s.chars().all(|c| c.is_ascii_digit()) {
+                        None
+                    } else {
+                        s.parse().ok()
+                    }
+                };
+                match body.split_once(',') {
+                    None => {
+                        let n = num(&body)?;
+                        (n, Some(n))
+                    }
+                    Some((a, "")) => (num(a)?, None),
+                    Some((a, b)) => {
+                        let (a, b) = (num(a)?, num(b)?);
+                        if a > b {
+                            return None;
+                        }
+                        (a, Some(b))
+                    }
+                }
+            }
+            _ => (1, Some(1)),
+        };
+        if matches!(cs.get(j), Some('+' | '*' | '?' | '{')) && j > i + 1 && matches!(cs.get(j - 1), Some('+' | '*' | '?' | '}')) {
+            return None; // lazy / stacked quantifier: outside the fragment
+        }
+        out.push(RPiece { a, min, max });
+        i = j;
+    }
+    Some(out)
+}
+
+/// independent pattern reader; `None` = not a pattern this reference understands
+fn ref_parse(pat: &str, force_dynamic: bool) -> Option<RPat> {
+    let cs: Vec<char> = pat.chars().collect();
+    if !cs.contains(&'{') {
+        if cs.last() == Some(&'*') {
+            return None; // unnamed tail: the code only warns; no defined meaning
+        }
+        let _ = force_dynamic;
+        return Some(RPat { segs: vec![RSeg::Const(cs)], tail: false });
+    }
+    let mut segs = Vec::new();
+    let mut i = 0;
+    let mut lit = Vec::new();
+    let mut tail = false;
+    let mut names: Vec<String> = Vec::new();
+    while i < cs.len() {
+        if cs[i] != '{' {
+            lit.push(cs[i]);
+            i += 1;
+            continue;
+        }
+        // matching close brace
+        let mut depth = 0usize;
+        let mut j = i;
+        let close = loop {
+            match cs.get(j)? {
+                '{' => depth += 1,
+                '}' => {
+                    depth -= 1;
+                    if depth == 0 {
+                        break j;
+                    }
+                }
+                _ => {}
+            }
+            j += 1;
+        };
+        let inner: String = cs[i + 1..close].iter().collect();
+        let is_tail = close + 2 == cs.len() && cs[close + 1] == '*';
+        let (name, re) = match inner.split_once(':') {
+            Some((n, r)) => {
+                if is_tail {
+                    return None;
+                }
+                (n.to_owned(), ref_regex(r)?)
+            }
+            None => (
+                inner.clone(),
+                if is_tail {
+                    vec![RPiece { a: RAtom::Any, min: 0, max: None }]
+                } else {
+                    vec![RPiece { a: RAtom::Cls(true, vec![('/', '/')]), min: 1, max: None }]
+                },
+            ),
+        };
+        let mut ch = name.chars();
+        let first_ok = ch.next().map_or(false, |c| c == '_' || c.is_ascii_alphabetic());
+        if !first_ok || !ch.all(|c| c == '_' || c.is_ascii_alphanumeric()) || names.contains(&name) {
+            return None;
+        }
+        names.push(name.clone());
+        segs.push(RSeg::Const(std::mem::take(&mut lit)));
+        segs.push(RSeg::Var(name, re));
+        i = close + 1;
+        if is_tail {
+            tail = true;
+            i += 1;
+        }
+    }
+    if lit.last() == Some(&'*') {
+        return None;
+    }
+    if !lit.is_empty() {
+        segs.push(RSeg::Const(lit));
+    }
+    if names.len() > 16 {
+        return None;
+    }
+    Some(RPat { segs, tail })
+}
+
+/// all positions (char indices) reachable after `pieces`, starting from any position in `from`
+fn reach_re(pieces: &[RPiece], path: &[char], from: &[bool]) -> Vec<bool> {
+    let n = path.len();
+    let mut cur = from.to_vec();
+    for p in pieces {
+        let mut nxt = vec![false; n + 1];
+        for st in 0..=n {
+            if !cur[st] {
+                continue;
+            }
+            let mut run = 0;
+            while st + run < n && p.a.ok(path[st + run]) && p.max.map_or(true, |m| run < m) {
+                run += 1;
+            }
+            for k in p.min..=run {
+                nxt[st + k] = true;
+            }
+        }
+        cur = nxt;
+    }
+    cur
+}
+
+fn in_lang(pieces: &[RPiece], val: &[char]) -> bool {
+    let mut from = vec![false; val.len() + 1];
+    from[0] = true;
+    reach_re(pieces, val, &from)[val.len()]
+}
+
+fn suffix_ok(p: &RPat, prefix: bool, path: &[char], e: usize) -> bool {
+    if p.tail {
+        true
+    } else if prefix {
+        e == path.len() || path[e] == '/'
+    } else {
+        e == path.len()
+    }
+}
+
+/// ground truth "does the pattern match the path" + the set of admissible match ends (char idx)
+fn ref_ends(p: &RPat, prefix: bool, path: &[char]) -> Vec<usize> {
+    let n = path.len();
+    let mut cur = vec![false; n + 1];
+    cur[0] = true;
+    for seg in &p.segs {
+        match seg {
+            RSeg::Const(s) => {
+                let mut nxt = vec![false; n + 1];
+                for st in 0..=n {
+                    if cur[st] && st + s.len() <= n && path[st..st + s.len()] == s[..] {
+                        nxt[st + s.len()] = true;
+                    }
+                }
+                cur = nxt;
+            }
+            RSeg::Var(_, re) => cur = reach_re(re, path, &cur),
+        }
+    }
+    (0..=n).filter(|&e| cur[e] && suffix_ok(p, prefix, path, e)).collect()
+}
+
+/// number of ways (capped at 2) to split `path` entirely into the pattern's segments
+fn count_decomps(p: &RPat, path: &[char]) -> u32 {
+    let n = path.len();
+    let mut cur = vec![0u32; n + 1];
+    cur[0] = 1;
+    for seg in &p.segs {
+        let mut nxt = vec![0u32; n + 1];
+        for st in 0..=n {
+            if cur[st] == 0 {
+                continue;
+            }
+            match seg {
+                RSeg::Const(s) => {
+                    if st + s.len() <= n && path[st..st + s.len()] == s[..] {
+                        nxt[st + s.len()] = (nxt[st + s.len()] + cur[st]).min(2);
+                    }
+                }
+                RSeg::Var(_, re) => {
+                    for e in st..=n {
+                        if in_lang(re, &path[st..e]) {
+                            nxt[e] = (nxt[e] + cur[st]).min(2);
+                        }
+                    }
+                }
+            }
+        }
+        cur = nxt;
+    }
+    cur[n]
+}
+
+/// check one successful capture against the words of the property; `Err(detail)` if it fails
+fn check_capture(p: &RPat, prefix: bool, path: &str, seen: &Seen) -> Result<(), (String, String)> {
+    let chars: Vec<char> = path.chars().collect();
+    let vars: Vec<(&String, &Vec<RPiece>)> = p
+        .segs
+        .iter()
+        .filter_map(|s| if let RSeg::Var(n, re) = s { Some((n, re)) } else { None })
+        .collect();
+    if vars.len() != seen.segs.len() {
+        return Err(("capture-count".into(), format!("{} values for {} dynamic segments", seen.segs.len(), vars.len())));
+    }
+    let mut pos = 0usize; // byte offset
+    let mut vi = 0;
+    for seg in &p.segs {
+        match seg {
+            RSeg::Const(s) => {
+                let s: String = s.iter().collect();
+                if !path[pos.min(path.len())..].starts_with(&s) {
+                    return Err(("capture-not-concatenation".into(), format!("static text {:?} not at byte {}", s, pos)));
+                }
+                pos += s.len();
+            }
+            RSeg::Var(name, re) => {
+                let (n, v) = &seen.segs[vi];
+                vi += 1;
+                let Some((st, en, val)) = v else {
+                    return Err(("capture-slice-panic".into(), format!("value of {} cannot be read", n)));
+                };
+                if n != name {
+                    return Err(("capture-name".into(), format!("got {} want {}", n, name)));
+                }
+                if *st != pos || path.get(*st..*en) != Some(val.as_str()) {
+                    return Err(("capture-not-substring".into(), format!("{}: offsets {}-{} value {:?}, expected start {}", n, st, en, val, pos)));
+                }
+                let vc: Vec<char> = val.chars().collect();
+                if !in_lang(re, &vc) {
+                    return Err(("capture-not-in-language".into(), format!("{}={:?} is not in the segment's language", n, val)));
+                }
+                pos = *en;
+            }
+        }
+    }
+    if pos != seen.skip {
+        return Err(("capture-length".into(), format!("statics+values end at byte {}, matched length {}", pos, seen.skip)));
+    }
+    let e = path[..pos].chars().count();
+    if !suffix_ok(p, prefix, &chars, e) {
+        return Err(("capture-boundary".into(), format!("match ends at byte {} which is not a segment boundary", pos)));
+    }
+    Ok(())
+}
+
+// ---------------------------------------------------------------- m / b / k cases
+
+fn run_m(prefix: bool, ws: &[&str]) -> CaseResult {
+    let Some((pats, single, paths)) = take_patterns(ws) else {
+        return CaseResult::ok("bad-case".into());
+    };
+    let mut res = CaseResult::ok(String::new());
+    res.nontrivial = false;
+    let Some(rd) = mk_def(prefix, &pats, single) else {
+        res.output = "panic".into();
+        return res.tag("m-new-panic");
+    };
+    let refs: Vec<Option<RPat>> = pats.iter().map(|p| ref_parse(p, !single)).collect();
+    let all_ref = refs.iter().all(|r| r.is_some());
+    res = res.tag(if !single {
+        "m-set"
+    } else if pats[0].contains('{') || pats[0].ends_with('*') {
+        "m-dynamic"
+    } else {
+        "m-static"
+    });
+    res = res.tag(if prefix { "m-prefix" } else { "m-full" });
+    let mut outs = Vec::new();
+    let (mut n_match, mut n_cap) = (0usize, 0usize);
+    for w in paths {
+        let Some(path) = unhex_str(w) else {
+            outs.push("bad-case".to_owned());
+            continue;
+        };
+        let in_scope = path.len() < 65536; // `http::Uri` never hands out longer paths
+        let is = rd.is_match(&path);
+        let find = rd.find_match(&path);
+        let mut p = Path::new(path.as_str());
+        let cap = catch_unwind(AssertUnwindSafe(|| rd.capture_match_info(&mut p)));
+        let cap_s = match cap {
+            Err(_) => {
+                if in_scope {
+                    res = res.fail("capture-panic", format!("capture_match_info panicked on path {}", w));
+                }
+                "PANIC".to_owned()
+            }
+            Ok(false) => "-".to_owned(),
+            Ok(true) => {
+                let seen = observe(&p);
+                n_match += 1;
+                if !seen.segs.is_empty() {
+                    n_cap += 1;
+                }
+                if in_scope {
+                    // the three ways agree on the length
+                    if find != Some(seen.skip) {
+                        res = res.fail("three-disagree-length", format!("path {}: find_match={:?} capture skip={}", w, find, seen.skip));
+                    }
+                    if all_ref {
+                        // first pattern (in order) whose language contains a boundary-ended prefix
+                        let chars: Vec<char> = path.chars().collect();
+                        let first = refs.iter().flatten().find(|r| !ref_ends(r, prefix, &chars).is_empty());
+                        match first {
+                            None => res = res.fail("match-not-in-language", format!("path {} matched but no pattern's language contains a prefix of it", w)),
+                            Some(r) => {
+                                if let Err((sig, d)) = check_capture(r, prefix, &path, &seen) {
+                                    res = res.fail(&sig, format!("path {}: {}", w, d));
+                                }
+                            }
+                        }
+                    }
+                }
+                show_seen(&seen)
+            }
+        };
+        if in_scope {
+            let cap_ok = cap_s != "-" && cap_s != "PANIC";
+            if is != find.is_some() || is != cap_ok {
+                res = res.fail(
+                    "three-disagree",
+                    format!("path {}: is_match={} find_match={:?} capture_match_info={}", w, is, find, cap_s),
+                );
+            }
+            if all_ref {
+                let chars: Vec<char> = path.chars().collect();
+                let truth = refs.iter().flatten().any(|r| !ref_ends(r, prefix, &chars).is_empty());
+                if truth != is {
+                    res = res.fail(
+                        if truth { "language-missed" } else { "language-extra" },
+                        format!("path {}: is_match={} but the pattern language says {}", w, is, truth),
+                    );
+                }
+            }
+        } else {
+            res = res.tag("m-over-64k");
+        }
+        outs.push(format!(
+            "{}/{}/{}",
+            is as u8,
+            find.map(|n| n.to_string()).unwrap_or_else(|| "-".into()),
+            cap_s
+        ));
+    }
+    if n_match > 0 {
+        res = res.tag("m-matched");
+    }
+    if n_cap > 0 {
+        res = res.tag("m-captured");
+    }
+    if !all_ref {
+        res = res.tag("m-no-reference");
+    }
+    res.nontrivial = n_match > 0;
+    res.output = outs.join(" ");
+    res
+}
+
+fn run_b(prefix: bool, ws: &[&str]) -> CaseResult {
+    let Some((pats, single, vals)) = take_patterns(ws) else {
+        return CaseResult::ok("bad-case".into());
+    };
+    let mut res = CaseResult::ok(String::new()).tag("b");
+    res.nontrivial = false;
+    let Some(rd) = mk_def(prefix, &pats, single) else {
+        res.output = "panic".into();
+        return res.tag("b-new-panic");
+    };
+    let vals: Vec<String> = match vals.iter().map(|w| unhex_str(w)).collect() {
+        Some(v) => v,
+        None => return CaseResult::ok("bad-case".into()),
+    };
+    let mut built = String::new();
+    let ok = rd.resource_path_from_iter(&mut built, &vals);
+    let mut p = Path::new(built.as_str());
+    let cap = catch_unwind(AssertUnwindSafe(|| rd.capture_match_info(&mut p)));
+    let cap_s = match &cap {
+        Err(_) => "PANIC".to_owned(),
+        Ok(false) => "-".to_owned(),
+        Ok(true) => show_seen(&observe(&p)),
+    };
+    res.output = format!("{}:{} {}", ok as u8, hs(&built), cap_s);
+    // oracle: "a path built from a pattern and values matches that pattern and yields those values back"
+    if let (true, Some(r)) = (ok, ref_parse(&pats[0], !single)) {
+        let vars: Vec<&Vec<RPiece>> = r.segs.iter().filter_map(|s| if let RSeg::Var(_, re) = s { Some(re) } else { None }).collect();
+        let used = &vals[..vars.len().min(vals.len())];
+        let legal = used.len() == vars.len()
+            && used.iter().zip(&vars).all(|(v, re)| in_lang(re, &v.chars().collect::<Vec<_>>()))
+            && built.len() < 65536;
+        if legal {
+            res.nontrivial = true;
+            res = res.tag("b-legal");
+            match cap {
+                Ok(true) => {
+                    let seen = observe(&p);
+                    let got: Vec<String> = seen.segs.iter().map(|(_, v)| v.as_ref().map(|x| x.2.clone()).unwrap_or_default()).collect();
+                    // re-building from what was captured must give the same path
+                    let mut again = String::new();
+                    let ok2 = rd.resource_path_from_iter(&mut again, &got);
+                    if !ok2 || again != built {
+                        res = res.fail("build-rebuild", format!("built {:?}, captured {:?}, rebuilt {:?}", built, got, again));
+                    }
+                    if single && got != used {
+                        // are the given values simply not recoverable (two different value tuples build this path)?
+                        let ways = count_decomps(&r, &built.chars().collect::<Vec<_>>());
+                        let sig = if ways >= 2 { "build-values-ambiguous" } else { "build-values-wrong" };
+                        res = res
+                            .tag("b-values-differ")
+                            .fail(sig, format!("pattern {:?} values {:?} built {:?} captured back {:?}", pats[0], used, built, got));
+                    }
+                }
+                _ => {
+                    res = res.fail("build-no-match", format!("pattern {:?} values {:?} built {:?} does not match", pats[0], used, built));
+                }
+            }
+        }
+    }
+    res
+}
+
+fn run_k(ws: &[&str]) -> CaseResult {
+    let Some(path) = ws.first().and_then(|w| unhex_str(w)) else {
+        return CaseResult::ok("bad-case".into());
+    };
+    let mut res = CaseResult::ok(String::new()).tag("k");
+    res.nontrivial = false;
+    let mut outs = Vec::new();
+    let mut p = Path::new(path.as_str());
+    let mut prev_skip = 0usize;
+    for step in &ws[1..] {
+        let Some((flag, pat)) = step.split_once(':') else {
+            outs.push("bad-case".to_owned());
+            break;
+        };
+        let Some(pat) = unhex_str(pat) else {
+            outs.push("bad-case".to_owned());
+            break;
+        };
+        let prefix = flag == "P";
+        let Some(rd) = mk_def(prefix, &[pat.clone()], true) else {
+            outs.push("panic".to_owned());
+            break;
+        };
+        let before = p.unprocessed().to_owned();
+        let nseg = p.segment_count();
+        match catch_unwind(AssertUnwindSafe(|| rd.capture_match_info(&mut p))) {
+            Err(_) => {
+                if path.len() < 65536 {
+                    res = res.fail("capture-panic", format!("capture_match_info panicked at step {}", step));
+                }
+                outs.push("PANIC".to_owned());
+                break;
+            }
+            Ok(false) => {
+                if p.unprocessed() != before || p.segment_count() != nseg {
+                    res = res.fail("chain-touched", format!("step {} returned false but changed the path state", step));
+                }
+                outs.push("-".to_owned());
+            }
+            Ok(true) => {
+                let seen = observe(&p);
+                res.nontrivial = true;
+                if path.len() < 65536 {
+                    // the step behaves on the unprocessed rest exactly like a fresh match on that rest
+                    let mut fresh = Path::new(before.as_str());
+                    let ok = rd.capture_match_info(&mut fresh);
+                    let f = observe(&fresh);
+                    let shifted: Vec<_> = f
+                        .segs
+                        .iter()
+                        .map(|(n, v)| (n.clone(), v.as_ref().map(|(s, e, x)| (s + prev_skip, e + prev_skip, x.clone()))))
+                        .collect();
+                    if !ok || seen.skip != prev_skip + f.skip || seen.segs[nseg..] != shifted[..] {
+                        res = res.fail("chain-offsets", format!("step {}: state {} vs fresh match {} shifted by {}", step, show_seen(&seen), show_seen(&f), prev_skip));
+                    }
+                }
+                prev_skip = seen.skip;
+                outs.push(show_seen(&seen));
+            }
+        }
+    }
+    res.output = outs.join(" ");
+    res
+}
+
+// ---------------------------------------------------------------- generators
+
+fn all_strings(alpha: &[char], max_len: usize) -> Vec<String> {
+    let mut out = vec![String::new()];
+    let mut start = 0;
+    for _ in 0..max_len {
+        let end = out.len();
+        for i in start..end {
+            for c in alpha {
+                let mut s = out[i].clone();
+                s.push(*c);
+                out.push(s);
+            }
+        }
+        start = end;
+    }
+    out
+}
+
+fn pats_words(pats: &[String], single: bool) -> String {
+    if single {
+        format!("S {}", hs(&pats[0]))
+    } else {
+        let v: Vec<String> = pats.iter().map(|p| hs(p)).collect();
+        format!("L{} {}", pats.len(), v.join(" ")).trim_end().to_owned()
+    }
+}
+
+fn push_m(cases: &mut Vec<String>, prefix: bool, pats: &[String], single: bool, paths: &[String]) {
+    for chunk in paths.chunks(256) {
+        let mut s = format!("m {} {}", if prefix { "P" } else { "F" }, pats_words(pats, single));
+        for p in chunk {
+            s.push(' ');
+            s.push_str(&hs(p));
+        }
+        cases.push(s);
+    }
+}
+
+const NAMES: [&str; 4] = ["x", "y", "z", "w"];
+
+/// menu of segment shapes; `#` is replaced by the positional name
+const MENU: &[&str] = &["/a", "/", "a", "-", "{#}", "{#:\\d+}", "{#:[ab]{2}}", "{#:.*}", "{#:[^/]*}", "{#:a?}"];
+const MENU3: &[&str] = &["/a", "/", "{#}", "{#:\\d+}", "{#:[a1]{1,2}}", "-"];
+
+fn inst(seg: &str, i: usize) -> String {
+    seg.replace('#', NAMES[i])
+}
+
+fn gen_exhaustive(ctx: &Ctx, cases: &mut Vec<String>) {
+    let alpha = ['a', '1', '/', '%', '2', 'F'];
+    let deep = !matches!(ctx.tier, crate::common::Tier::Quick);
+    let paths4 = all_strings(&alpha, if deep { 5 } else { 4 });
+    let mut pats: Vec<String> = Vec::new();
+    for a in MENU {
+        pats.push(inst(a, 0));
+        pats.push(format!("{}{{t}}*", inst(a, 0)));
+        for b in MENU {
+            pats.push(format!("{}{}", inst(a, 0), inst(b, 1)));
+        }
+    }
+    pats.push("{t}*".into());
+    pats.push("".into());
+    for a in MENU3 {
+        for b in MENU3 {
+            for c in MENU3 {
+                pats.push(format!("{}{}{}", inst(a, 0), inst(b, 1), inst(c, 2)));
+            }
+            pats.push(format!("{}{}{{t}}*", inst(a, 0), inst(b, 1)));
+        }
+    }
+    for p in &pats {
+        for prefix in [false, true] {
+            push_m(cases, prefix, &[p.clone()], true, &paths4);
+        }
+    }
+    // pattern lists of ≤ 2 (and the degenerate lists of 0 and 1)
+    let small = ["/a", "/{x}", "{x}", "/{x:\\d+}", "/a/{x}", "/{x}/{y}", "{x}-{y}", "/{t}*", "/a{x:[ab]{2}}", ""];
+    let paths3 = all_strings(&alpha, 4);
+    for prefix in [false, true] {
+        push_m(cases, prefix, &[], false, &paths3[..40]);
+        for a in small {
+            push_m(cases, prefix, &[a.to_owned()], false, &paths3);
+            for b in small {
+                push_m(cases, prefix, &[a.to_owned(), b.to_owned()], false, &paths3);
+            }
+        }
+    }
+}
+
+/// a random regex of the fragment, as text
+fn rand_regex(rng: &mut Rng) -> String {
+    const ATOMS: &[&str] = &["a", "1", "\\d", "[a-z_]", ".", "[ab]", "[^/]", "[a-c1]", "[^a/]", "\\.", "-", "[\\d_]", "é", "%", "F", "[^1-2]"];
+    const QUANTS: &[&str] = &["", "", "+", "*", "?", "{2}", "{1,2}", "{0,1}", "{1,}", "{0}", "{3}"];
+    let n = rng.range(1, 3);
+    let mut s = String::new();
+    for _ in 0..n {
+        s.push_str(*rng.pick(ATOMS));
+        s.push_str(*rng.pick(QUANTS));
+    }
+    s
+}
+
+fn rand_pattern(rng: &mut Rng) -> String {
+    const STATICS: &[&str] = &["/", "/a", "/user", "a", "-", ".", "/é", "/a.b", "_", "//", "/1", "%2F", "/a}"];
+    let n = rng.range(0, 4);
+    let mut s = String::new();
+    let mut vi = 0;
+    for i in 0..n {
+        match rng.below(5) {
+            0 | 1 => s.push_str(*rng.pick(STATICS)),
+            2 => {
+                s.push_str(&format!("{{v{}}}", vi));
+                vi += 1;
+            }
+            3 => {
+                s.push_str(&format!("{{v{}:{}}}", vi, rand_regex(rng)));
+                vi += 1;
+            }
+            _ => {
+                if i + 1 == n && rng.chance(1, 2) {
+                    s.push_str(&format!("{{v{}}}*", vi));
+                    vi += 1;
+                } else {
+                    s.push('/');
+                    s.push_str(&format!("{{v{}}}", vi));
+                    vi += 1;
+                }
+            }
+        }
+    }
+    s
+}
+
+/// a random member of the language of `re` (or a near miss)
+fn sample_re(rng: &mut Rng, re: &[RPiece], out: &mut String) {
+    const POOL: &[char] = &['a', 'b', 'c', '1', '2', '9', '/', '-', '.', '_', '%', 'F', 'é', '日', '😀', '\n', 'x', ' '];
+    for p in re {
+        let hi = p.max.unwrap_or(p.min + 3).max(p.min);
+        let k = rng.range(p.min, hi);
+        for _ in 0..k {
+            // rejection-sample a matching char
+            for _ in 0..40 {
+                let c = *rng.pick(POOL);
+                if p.a.ok(c) {
+                    out.push(c);
+                    break;
+                }
+            }
+        }
+    }
+}
+
+fn sample_path(rng: &mut Rng, r: &RPat) -> String {
+    let mut s = String::new();
+    for seg in &r.segs {
+        match seg {
+            RSeg::Const(c) => s.extend(c.iter()),
+            RSeg::Var(_, re) => sample_re(rng, re, &mut s),
+        }
+    }
+    s
+}
+
+fn mutate(rng: &mut Rng, s: &str) -> String {
+    const POOL: &[char] = &['a', '1', '/', '-', '.', '%', 'é', 'b', '2', '_', '日'];
+    let mut cs: Vec<char> = s.chars().collect();
+    match rng.below(5) {
+        0 if !cs.is_empty() => {
+            let i = rng.below(cs.len());
+            cs.remove(i);
+        }
+        1 => {
+            let i = rng.below(cs.len() + 1);
+            cs.insert(i, *rng.pick(POOL));
+        }
+        2 => {
+            cs.push('/');
+            for _ in 0..rng.below(4) {
+                cs.push(*rng.pick(POOL));
+            }
+        }
+        3 if !cs.is_empty() => {
+            let i = rng.below(cs.len());
+            cs[i] = *rng.pick(POOL);
+        }
+        _ => {
+            for _ in 0..rng.range(1, 3) {
+                cs.push(*rng.pick(POOL));
+            }
+        }
+    }
+    cs.into_iter().collect()
+}
+
+fn gen_random(ctx: &Ctx, rng: &mut Rng, cases: &mut Vec<String>) {
+    for _ in 0..ctx.budget(3000) {
+        let npat = if rng.chance(1, 5) { rng.range(2, 3) } else { 1 };
+        let pats: Vec<String> = (0..npat).map(|_| rand_pattern(rng)).collect();
+        let single = npat == 1 && !rng.chance(1, 20);
+        let prefix = rng.chance(1, 2);
+        let mut paths = Vec::new();
+        for p in &pats {
+            if let Some(r) = ref_parse(p, !single) {
+                for _ in 0..4 {
+                    let s = sample_path(rng, &r);
+                    paths.push(mutate(rng, &s));
+                    if prefix && rng.chance(1, 2) {
+                        paths.push(format!("{}/{}", s, if rng.chance(1, 2) { "rest" } else { "" }));
+                    }
+                    paths.push(s);
+                }
+            }
+        }
+        for _ in 0..3 {
+            let n = rng.below(8);
+            paths.push((0..n).map(|_| *rng.pick(&['a', '1', '/', '-', '.', 'é', 'b'])).collect());
+        }
+        push_m(cases, prefix, &pats, single, &paths);
+        // build + re-capture
+        if single && rng.chance(1, 2) {
+            if let Some(r) = ref_parse(&pats[0], false) {
+                let mut vals = Vec::new();
+                for seg in &r.segs {
+                    if let RSeg::Var(_, re) = seg {
+                        let mut v = String::new();
+                        sample_re(rng, re, &mut v);
+                        vals.push(v);
+                    }
+                }
+                if rng.chance(1, 10) && !vals.is_empty() {
+                    vals.pop();
+                }
+                if rng.chance(1, 10) {
+                    vals.push("extra".into());
+                }
+                let vs: Vec<String> = vals.iter().map(|v| hs(v)).collect();
+                cases.push(format!("b {} {} {}", if prefix { "P" } else { "F" }, pats_words(&pats, true), vs.join(" ")).trim_end().to_owned());
+            }
+        }
+    }
+    // chained prefix → resource matching on one Path
+    for _ in 0..ctx.budget(400) {
+        let a = rand_pattern(rng);
+        let b = rand_pattern(rng);
+        let (Some(ra), Some(rb)) = (ref_parse(&a, false), ref_parse(&b, false)) else { continue };
+        let mut path = sample_path(rng, &ra);
+        if rng.chance(3, 4) && !b.starts_with('/') {
+            path.push('/');
+        }
+        path.push_str(&sample_path(rng, &rb));
+        if rng.chance(1, 4) {
+            path = mutate(rng, &path);
+        }
+        cases.push(format!("k {} P:{} F:{} P:{}", hs(&path), hs(&a), hs(&b), hs(&b)));
+    }
+    // malformed patterns (constructor panics) and degenerate ones (warnings only)
+    const BAD: &[&str] = &[
+        "/{a", "/{a}/{a}", "/{}", "/{1a}", "/{a:\\d+}*", "/{a-b}", "/{a}/{b}/{c}/{d}/{e}/{f}/{g}/{h}/{i}/{j}/{k}/{l}/{m}/{n}/{o}/{p}/{q}",
+        "/{a}/{b}/{c}/{d}/{e}/{f}/{g}/{h}/{i}/{j}/{k}/{l}/{m}/{n}/{o}/{p}", "/a*", "/a/*", "*", "/{a}**", "/{a}*/b", "/{a}/b*", "/{a{b}}",
+        "/{_}", "/{a.b}", "{a}{b}",
+    ];
+    let some_paths: Vec<String> = ["", "/", "/a", "/a/", "/a/b", "/x/y/z/1/2/3/4/5/6/7/8/9/a/b/c/d", "/x/y/z/1/2/3/4/5/6/7/8/9/a/b/c/d/e", "/a*", "/ab", "/a/*", "/q*/b", "/q/b*", "ab"]
+        .iter()
+        .map(|s| s.to_string())
+        .collect();
+    for b in BAD {
+        for prefix in [false, true] {
+            push_m(cases, prefix, &[b.to_string()], true, &some_paths);
+            push_m(cases, prefix, &[b.to_string(), "/a".into()], false, &some_paths);
+        }
+    }
+    // long paths up to the URL limit (http::Uri: < 65535 bytes)
+    for i in 0..ctx.budget(12) {
+        let total = match i {
+            0 => 65_534,
+            1 => 65_535,
+            2 => 32_768,
+            _ => rng.range(1000, 65_534),
+        };
+        const LP: &[&str] = &["/{a}/{b}", "/u/{t}*", "/{a}-{b}", "/{a:[a-z0-9_]+}/x", "/{a}/x", "/{a:.*}/{b}"];
+        let pat = *rng.pick(LP);
+        // shape: "/" + run + mid + run, sized to `total`
+        const MID: &[&str] = &["/", "-", "/x", "//"];
+        let mid = *rng.pick(MID);
+        let left = rng.range(1, total - 10);
+        let mut s = String::with_capacity(total);
+        s.push('/');
+        while s.len() < left {
+            s.push(*rng.pick(&['a', 'b', '1', '_']));
+        }
+        s.push_str(mid);
+        while s.len() < total {
+            s.push(*rng.pick(&['a', 'b', '1', '_']));
+        }
+        push_m(cases, rng.chance(1, 3), &[pat.to_owned()], true, &[s]);
+    }
+}
+
+fn gen(ctx: &Ctx) -> Vec<String> {
+    let mut rng = Rng::new(ctx.seed);
+    let mut cases = Vec::new();
+    gen_q(ctx, &mut rng, &mut cases);
+    gen_exhaustive(ctx, &mut cases);
+    gen_random(ctx, &mut rng, &mut cases);
+    cases
+}
+
+fn run(line: &str) -> CaseResult {
+    let words: Vec<&str> = line.split_ascii_whitespace().collect();
+    match words.first().copied() {
+        Some("q") if words.len() >= 2 => run_q(&words),
+        Some("m") if words.len() >= 3 => run_m(words[1] == "P", &words[2..]),
+        Some("b") if words.len() >= 3 => run_b(words[1] == "P", &words[2..]),
+        Some("k") if words.len() >= 2 => run_k(&words[1..]),
+        _ => {
+            let mut r = CaseResult::ok("bad-case".into());
+            r.nontrivial = false;
+            r
+        }
+    }
+}
 
 pub fn prop() -> Prop {
-    Prop {
-        rule: "unimplemented",
-        parallel: false,
-        gen: Box::new(|_| Vec::new()),
-        run: Box::new(|_| CaseResult::ok("unimplemented".to_owned())),
-    }
+    Prop { rule: RULE, parallel: true, gen: Box::new(gen), run: Box::new(run) }
 }
